@@ -69,16 +69,37 @@ def run(ctx):
             parts = ["TR(1) "] + parts + [" TR(2) ", mmlgen.block(rng, 1, 2, {}), rng.choice(["", raw])]
         srcs.append(" ".join(parts))
     srcs += ["DirectSMF(255,47,0) c", "TR(1) c DirectSMF($FF,$2F,0) d TR(2) e", "cde DirectSMF(255,47,0)"]
+    # play-from: the point inside, at the end of and beyond tracks that hold program / controller / meta events
+    for _ in range(40 if ctx.tier == "quick" else 800):
+        ntr = rng.choice([1, 2, 3])
+        body = ""
+        for t in range(1, ntr + 1):
+            body += "TR(%d) %s %s " % (t, rng.choice(["@5", "y7,100;", "M(64)", "@5 y10,20;", "TrackName={\"x\"}", ""]),
+                                      mmlgen.block(rng, 1, rng.randrange(0, 4), {}))
+            if rng.random() < 0.5:
+                body += rng.choice(["r1 r1 ", "r1 ", "l1 rrrr "])
+            if rng.random() < 0.5:
+                body += "? "
+        where = rng.choice(["", "PlayFrom(%d) " % rng.choice([0, 1, 96, 384, 5000]), "PlayFrom(%d:1:0) " % rng.choice([1, 2, 3, 9])])
+        srcs.append(where + body + rng.choice(["", "?", "c ?", "? c"]))
+    srcs += ["@5 c ?", "TR(1) @5 l4 cdef TR(2) r1 r1 ? cdef", "y7,1; ?", "?", "c ? ?"]
     lines = ["compile_ev\t%s" % vlib.enc_text(s) for s in srcs]
     got = ctx.impl(lines, stall=20)
-    for s, g in zip(srcs, got):
+    # the bytes that are checked are those of the PUBLIC entry point compile(); compile_ev (the same stages called one by
+    # one by the harness) only tells the number of tracks and the time base
+    pub = ctx.impl(["compile\t%s\t0" % vlib.enc_text(s) for s in srcs], stall=20)
+    for s, g, pg in zip(srcs, got, pub):
         f = g.split("\t")
-        if len(f) < 4:
+        pf = pg.split("\t")
+        if len(f) < 4 or len(pf) < 2:
             ctx.dist["compile_" + g[:12]] = ctx.dist.get("compile_" + g[:12], 0) + 1
             continue
         nt = f[2].count("/") + 1
         tb = int(f[1])
-        todo.append(check_container(ctx, s, f[0], nt, tb, "compiled", nt >= 2 or tb != 96))
+        if pf[0] != f[0]:
+            ctx.dist["staged_pipeline_differs_from_compile"] = ctx.dist.get("staged_pipeline_differs_from_compile", 0) + 1
+            todo.append(check_container(ctx, s, f[0], nt, tb, "compiled(staged)", False))
+        todo.append(check_container(ctx, s, pf[0], nt, tb, "compiled", nt >= 2 or tb != 96))
     res = ctx.model([t[0] for t in todo])
     for (line, label, nt, tb, origin, nontriv), r in zip(todo, res):
         f = r.split("\t")
